@@ -60,6 +60,8 @@ func c06Run(t *testing.T, ops []string, o *Out) {
 				_ = icpt.Close()
 			}
 		}()
+		inside := -1
+		var spendInside func()
 		ensure := func() {
 			if icpt != nil {
 				return
@@ -85,6 +87,7 @@ func c06Run(t *testing.T, ops []string, o *Out) {
 				return 0, nil
 			}))
 			rtcpIn = icpt.BindRTCPReader(interceptor.RTCPReaderFunc(func(b []byte, a interceptor.Attributes) (int, interceptor.Attributes, error) {
+				spendInside()
 				return copy(b, curRTCP), a, nil
 			}))
 			synctest.Wait()
@@ -126,6 +129,15 @@ func c06Run(t *testing.T, ops []string, o *Out) {
 			synctest.Wait()
 			flush()
 		}
+		// a blocking transport: the time before a packet arrives passes INSIDE the wrapped reader's Read
+		// (the interceptor's Read was entered earlier); `inside = ns` hands the advance to the next inner read
+		spendInside = func() {
+			if inside >= 0 {
+				ns := inside
+				inside = -1
+				adv(ns)
+			}
+		}
 		buf := make([]byte, 1500)
 		readRTP := func(rd interceptor.RTPReader, ssrc uint32, seq uint16, ts uint32) {
 			p := rtp.Packet{Header: rtp.Header{Version: 2, SequenceNumber: seq, Timestamp: ts, SSRC: ssrc}, Payload: []byte{1, 2, 3}}
@@ -156,6 +168,7 @@ func c06Run(t *testing.T, ops []string, o *Out) {
 				readers[ssrc] = icpt.BindRemoteStream(
 					&interceptor.StreamInfo{SSRC: ssrc, ClockRate: uint32(atoi(m["rate"]))},
 					interceptor.RTPReaderFunc(func(b []byte, a interceptor.Attributes) (int, interceptor.Attributes, error) {
+						spendInside()
 						return copy(b, curRTP), a, nil
 					}))
 			case name == "rtp" && need("ssrc", "seq", "ts", "dt"):
@@ -164,12 +177,14 @@ func c06Run(t *testing.T, ops []string, o *Out) {
 					o.P("bad-op")
 					continue
 				}
-				adv(atoi(m["dt"]))
+				inside = atoi(m["dt"])
 				readRTP(rd, uint32(atoi(m["ssrc"])), uint16(atoi(m["seq"])), uint32(atoi(m["ts"])))
 			case name == "sr" && need("ssrc", "ntp", "rtp", "dt"):
-				adv(atoi(m["dt"]))
+				ensure()
+				inside = atoi(m["dt"])
 				var ntpv uint64
 				if _, err := fmt.Sscanf(m["ntp"], "%d", &ntpv); err != nil {
+					spendInside()
 					o.P("bad-op")
 					continue
 				}
